@@ -29,6 +29,7 @@ type mtask struct {
 	Variant string `json:"variant"` // run start signal
 	Out     string `json:"out"`     // ok err panic
 	Done    int    `json:"done"`
+	Pre     bool   `json:"pre"` // submitted before the module system is started (high priority only: no scheduler yet)
 }
 
 type script struct {
@@ -216,11 +217,20 @@ func main() {
 		}
 	}
 	modules.SetMaxConcurrentMicroTasks(sc.Threshold)
+	maxDelay := 10 * time.Second
+	launched := map[string]bool{}
+	// microtasks that span the start of their module: submitted now, finished when the policy says so
+	for i := range sc.Tasks {
+		if t := &sc.Tasks[i]; t.Pre && t.Prio == "high" {
+			launched[t.ID] = true
+			launch(t, maxDelay)
+			sch.Settle(t.ID, 5*time.Millisecond)
+		}
+	}
 	if err := modules.Start(); err != nil {
 		fmt.Fprintln(os.Stderr, "start failed:", err)
 		os.Exit(2)
 	}
-	maxDelay := 10 * time.Second
 	if sc.Burst || sc.Storm > 0 {
 		maxDelay = 10 * time.Minute
 		sch.Free()
@@ -228,7 +238,6 @@ func main() {
 	if sc.Expiry {
 		maxDelay = 60 * time.Millisecond
 	}
-	launched := map[string]bool{}
 	for _, a := range sc.Policy {
 		if a != "sched" && !launched[a] {
 			t := byID[a]
@@ -298,6 +307,25 @@ func main() {
 	time.Sleep(80 * time.Millisecond) // let the scheduler drain signals of timed-out requests
 	emit(map[string]any{"e": "final", "modCount": modules.GetStatus().Modules["M"].MicroTasks})
 
+	// ordinary tasks take their time slots from the idle microtask scheduler: that must not count as microtasks
+	{
+		var tw sync.WaitGroup
+		for k := 0; k < sc.Threshold+2; k++ {
+			tw.Add(1)
+			modM.NewTask(fmt.Sprintf("slot-taker-%d", k), func(context.Context, *modules.Task) error {
+				defer tw.Done()
+				time.Sleep(25 * time.Millisecond)
+				return nil
+			}).Queue()
+		}
+		done := make(chan struct{})
+		go func() { tw.Wait(); close(done) }()
+		select {
+		case <-done:
+		case <-time.After(5 * time.Second):
+			emit(map[string]any{"e": "note", "point": "slot-takers did not finish"})
+		}
+	}
 	// idle probes: nothing runs and nothing waits (the scheduler is parked); a single microtask of each
 	// waiting priority must be admitted at once, whichever variant submits it
 	for _, kind := range []string{"low", "siglow", "med", "startlow"} {
